@@ -155,3 +155,108 @@ def validate_params(S):
 # HTTP dispatch sites (units O3-O5 live in C06_http.py; importing it registers them here)
 # ------------------------------------------------------------------------------------------
 import C06_http  # noqa: E402,F401
+
+
+# ------------------------------------------------------------------------------------------
+# O6 carrier obligation: the schema _read_request records for _validate_call_signature is the schema of the very batch
+# the arguments are read from (inline batch, or what a shared-memory pointer resolves to) - otherwise O1 validates
+# one schema while the method receives values decoded under another
+# ------------------------------------------------------------------------------------------
+
+
+def _load_c05():
+    import importlib.util
+    import os
+    import sys
+
+    from pyvc import api
+
+    api.begin_registry()
+    try:
+        spec = importlib.util.spec_from_file_location("contracts_C05_as_library", os.path.join(os.path.dirname(os.path.abspath(__file__)), "C05.py"))
+        mod = importlib.util.module_from_spec(spec)
+        sys.modules[spec.name] = mod
+        spec.loader.exec_module(mod)
+    finally:
+        api.end_registry()
+    return mod
+
+
+def replay_recorded_schema(inputs, ob):
+    """Real server on a pipe with a shared-memory segment: a pointer request whose inline (0-row) batch has the declared
+    schema while the payload in the segment carries a retyped / reordered / nullable-flipped column.  The method must not run."""
+    import contextlib
+    from io import BytesIO
+    from typing import Protocol
+
+    import pyarrow as pa
+    from vgi_rpc.metadata import REQUEST_VERSION, REQUEST_VERSION_KEY, RPC_METHOD_KEY
+    from vgi_rpc.rpc import PipeTransport, RpcServer, ShmPipeTransport, rpc_methods
+    from vgi_rpc.shm import ShmSegment, make_shm_pointer_batch
+
+    class Calc(Protocol):
+        def scale(self, value: int, factor: int) -> int: ...
+
+    class Impl:
+        def __init__(self):
+            self.calls = []
+
+        def scale(self, value, factor):
+            self.calls.append((value, factor))
+            return 0
+
+    declared = rpc_methods(Calc)["scale"].params_schema
+    variants = {
+        "retyped": pa.RecordBatch.from_pydict({"value": [2.5], "factor": [7]}, schema=pa.schema([pa.field("value", pa.float64(), nullable=False), declared.field("factor")])),
+        "narrowed": pa.RecordBatch.from_pydict({"value": [6], "factor": [7]}, schema=pa.schema([declared.field("value"), pa.field("factor", pa.int32(), nullable=False)])),
+        "reordered": pa.RecordBatch.from_pydict({"factor": [7], "value": [6]}, schema=pa.schema([declared.field("factor"), declared.field("value")])),
+        "nullable": pa.RecordBatch.from_pydict({"value": [6], "factor": [7]}, schema=pa.schema([pa.field("value", pa.int64(), nullable=True), declared.field("factor")])),
+    }
+    hits = []
+    for label, inner in variants.items():
+        seg = ShmSegment.create(1 << 20)
+        try:
+            placed = seg.allocate_and_write(inner)
+            if placed is None:
+                continue
+            ptr_batch, ptr_cm = make_shm_pointer_batch(declared, placed[0], placed[1])
+            md = {RPC_METHOD_KEY: b"scale", REQUEST_VERSION_KEY: REQUEST_VERSION, **dict(ptr_cm.items())}
+            buf = BytesIO()
+            with pa.ipc.new_stream(buf, ptr_batch.schema) as w:
+                w.write_batch(ptr_batch, custom_metadata=pa.KeyValueMetadata(md))
+            impl = Impl()
+            with contextlib.suppress(Exception):
+                RpcServer(Calc, impl).serve_one(ShmPipeTransport(PipeTransport(BytesIO(buf.getvalue()), BytesIO()), seg))
+            if impl.calls:
+                hits.append(f"{label} payload behind a conforming pointer: scale ran with {impl.calls[0]}")
+        finally:
+            with contextlib.suppress(Exception):
+                seg.close()
+            with contextlib.suppress(Exception):
+                seg.unlink()
+    return ReplayResult(bool(hits), "; ".join(hits) or "every non-conforming shm payload was refused before the method ran")
+
+
+@unit(
+    "C06.O6 _read_request records the schema of the batch the arguments are read from (inline or shm-resolved)",
+    targets=["vgi_rpc/rpc/_wire.py::_read_request", "vgi_rpc/shm.py::resolve_shm_batch"],
+    replay=replay_recorded_schema,
+    min_obligations=10,
+    max_paths=40000,
+)
+def recorded_schema(S):
+    K = _load_c05()
+
+    def extra(S, out, info):
+        if not out.returned:
+            return
+        reads = S.events("column_read")
+        store = info["store"]
+        rec = store.get(_common._current_request_param_schema)
+        S.oblige("O6.a_schema_is_recorded_for_every_accepted_request", rec is not None, kind="trace")
+        for e in reads:
+            S.oblige("O6.recorded_schema_is_the_schema_of_the_batch_the_arguments_come_from", rec is e[1].fields["schema"], kind="trace", witness="shm_payload" if e[1] is info["payload"] else "inline")
+        S.oblige("O6.arguments_are_read_from_one_batch", len({id(e[1]) for e in reads}) <= 1, kind="trace")
+        S.canary("O6.canary.arguments_never_come_from_a_shm_payload", SBool(z3.BoolVal(not any(e[1] is info["payload"] for e in reads))))
+
+    K.read_request(S, extra=extra)
